@@ -857,6 +857,7 @@ impl Adf {
                 if stack.is_empty() {
                     break;
                 }
+                let mut choice_restored = false;
                 while let Some((choice, ng)) = stack.pop() {
                     log::trace!("adding ng: {:?}", ng);
                     ng_store.add_ng(ng);
@@ -867,8 +868,13 @@ impl Adf {
                             "choice found, reverting interpretation to {:?}",
                             cur_interpr
                         );
+                        choice_restored = true;
                         break;
                     }
+                }
+                if !choice_restored {
+                    // only consequences of the initial interpretation were left: the search space is exhausted
+                    break;
                 }
             }
             match ng_store.conclusion_closure(&cur_interpr) {
